@@ -217,6 +217,41 @@ theorem inv_run (exec : Exec S L) (calls : Nat → Call L) (s0 : S) (hl : ∀ t,
   | cons t r ih => exact ih _ (inv_step exec calls s0 hl c t I)
 
 
+/-- a call has finished exactly when it has released the mutex. -/
+theorem finished_iff {exec : Exec S L} {calls : Nat → Call L} {s0 : S} {c : Conf S L}
+    (hl : ∀ t, lockHeld (calls t).prog = true) (I : SerInv exec calls s0 c) (t : Nat) :
+    (c.threads t).todo = [] ↔ t ∈ c.done := by
+  constructor
+  · intro h
+    apply Classical.byContradiction
+    intro hnd
+    by_cases hh : c.holder = some t
+    · obtain ⟨_, rest, htodo, _⟩ := I.crit t hh
+      rw [htodo] at h
+      simp at h
+    · have := I.fresh t hnd hh
+      rw [this] at h
+      simp only at h
+      have := (lockHeld_shape (hl t)).1
+      rw [h] at this
+      simp at this
+  · intro h
+    obtain ⟨l, hm⟩ := exists_fin_of_mem_done (exec := exec) (calls := calls) (s0 := s0) h
+    have := I.fin _ hm
+    simp only at this
+    rw [this]
+
+/-- the local results of the finished calls, in release order, are those of the sequential execution in that order. -/
+theorem results_eq {β : Type} {exec : Exec S L} {calls : Nat → Call L} {s0 : S} {c : Conf S L}
+    (I : SerInv exec calls s0 c) (f : L → β) :
+    c.done.map (fun t => f (c.threads t).loc) = (serial exec calls c.done s0).2.map (fun p => f p.2) := by
+  conv => lhs; rw [← serial_fst exec calls c.done s0]
+  rw [List.map_map]
+  apply List.map_congr_left
+  intro p hp
+  simp only [Function.comp]
+  rw [I.fin p hp]
+
 /-! ### the steps of `NextAndPush`, run without interruption, are `HSched.nextAndPush` -/
 
 section Concrete
@@ -316,6 +351,39 @@ theorem hrun_add (wf : Nat → Rat) (a b : Nat) (s : HSched) :
     | some p =>
       obtain ⟨i, s'⟩ := p
       simp only [ih s', List.cons_append]
+
+/-- the abstraction relation heap scheduler ↔ list scheduler survives any number of picks. -/
+theorem hrun_rel (wf : Nat → Rat) (hwf : ∀ k, 0 < wf k) (k : Nat) (hs : HSched) (s : Sched)
+    (R : Rel hs s) (hI : Inv s) (hQ : QInv s) :
+    Rel (hs.run wf k).2 (s.run wf (List.replicate k none)).2 ∧ Inv (s.run wf (List.replicate k none)).2 ∧
+    QInv (s.run wf (List.replicate k none)).2 := by
+  induction k generalizing hs s with
+  | zero => exact ⟨R, hI, hQ⟩
+  | succ k ih =>
+    unfold HSched.run
+    simp only [List.replicate_succ, Sched.run]
+    cases hn : hs.nextAndPush wf with
+    | none =>
+      have hsz : hs.items.size = 0 := by
+        unfold HSched.nextAndPush at hn
+        split at hn
+        · assumption
+        · simp at hn
+      have hnil : s.entries = [] := by
+        cases he : s.entries with
+        | nil => rfl
+        | cons x r =>
+          obtain ⟨k, hk, _⟩ := (R.mem x).mp (by rw [he]; exact List.mem_cons_self)
+          omega
+      have : s.nextAndPush wf none = none := by
+        unfold Sched.nextAndPush; rw [pick_none, hnil]; rfl
+      simp only [this]
+      exact ⟨R, hI, hQ⟩
+    | some p =>
+      obtain ⟨i, hs'⟩ := p
+      obtain ⟨s', h1, R'⟩ := hsched_next_refines R hQ wf hn
+      simp only [h1]
+      exact ih hs' s' R' (inv_next hI hwf h1) (qinv_next hQ h1)
 
 end Concrete
 
